@@ -103,7 +103,7 @@ class PyPackageSearcher(AbstractSearcher):
                 continue
 
             pyData = self.__loader.get_data(f)
-            if pyData[:4] == PY_MAGIC_NUMBER:
+            if pyData[:4] == PY_MAGIC_NUMBER and len(pyData) >= 12:
                 pyData = pyData[4:]
                 if sys.version_info[:2] >= (3, 7):
                     # PEP 552: a flags word precedes the source mtime
